@@ -181,6 +181,19 @@ def check_structured(ctx, rng):
     kw = {} if sep == '-' and rng.random() < 0.5 else {'gf_separator': sep}
     case = {'kind': 'structured', 's': s, 'sep': sep,
             'parts': [cat, gf, gap, co, head]}
+    if rng.random() < 0.5:
+        # an earlier call on the same string with another separator, whose
+        # result the caller then edits: nothing of it may show below
+        other = rng.choice([x for x in ['-', '#', '+', '/', '='] if x != sep])
+        case['earlier_separator'] = other
+        try:
+            q = T.parse_label(s, gf_separator=other)
+            q.coindex = q.gapindex = ''
+            q.gf = 'XX'
+        except Exception:
+            pass
+        ctx.stratum('structured: same string parsed before with another '
+                    'separator')
     try:
         p = T.parse_label(s, **kw)
     except Exception:
@@ -313,6 +326,14 @@ def replay(ctx, case):
         if case['kind'] == 'structured':
             T = ctx.R.trees
             cat, gf, gap, co, head = case['parts']
+            if case.get('earlier_separator'):
+                try:
+                    q = T.parse_label(case['s'],
+                                      gf_separator=case['earlier_separator'])
+                    q.coindex = q.gapindex = ''
+                    q.gf = 'XX'
+                except Exception:
+                    pass
             p = T.parse_label(case['s'], gf_separator=case['sep'])
             got = (p.label, p.gf, p.gapindex, p.coindex, p.headmarker)
             if list(got) != list(case['parts']):
